@@ -606,6 +606,10 @@ class CParser(RecursiveDescentParser):
                     )
 
             self.consume("=")
+        elif init_cursor.at_end():
+            # All subobjects have their initializer already.
+            self.skip_excess_initializer()
+            return
 
         # Parse actual initializer.
         typ = init_cursor.level.element_typ()
@@ -636,10 +640,24 @@ class CParser(RecursiveDescentParser):
         self.semantics.on_field_designator(init_cursor, field_name, location)
         return location
 
-    def skip_initializer_lists(self):
-        """Skip superfluous initial values."""
-        while self.peek != "}":
-            self.next_token()
+    def skip_excess_initializer(self):
+        """Skip a superfluous initial value, with a warning as gcc."""
+        location = self.current_location
+        if self.peek == "{":
+            depth = 0
+            while True:
+                if self.peek == "{":
+                    depth += 1
+                elif self.peek == "}":
+                    depth -= 1
+                elif self.at_end:
+                    self.error("Expected '}'")
+                self.next_token()
+                if depth == 0:
+                    break
+        else:
+            self.parse_constant_expression()
+        self.semantics.warning("Excess elements in initializer", location)
 
     # Types section:
     def parse_function_arguments(self):
